@@ -7,8 +7,13 @@ import concurrent.futures, json, os, subprocess
 import common, ks
 
 
-def run(tier, verdict, prop, cov, nproc=8):
+def run(tier, verdict, prop, cov, nproc=8, as_observed=None):
+    """as_observed="save_first": B3 - the real Ready loop was SEEN to make the hard state of a snapshot-carrying Ready durable
+    before the snapshot; the model is instantiated with that order (MC_Recover_savefirst.cfg, no invariants: it violates
+    Acceptable by design) and its behaviours are replayed to obtain a witness on real files."""
     cfg = "MC_Recover.cfg" if tier == "quick" else "MC_Recover_thorough.cfg"
+    if as_observed == "save_first":
+        cfg = "MC_Recover_savefirst.cfg"
     d = common.scratch("recover-")
     scen = os.path.join(d, "scen.ndjson")
     n = [0]
@@ -25,16 +30,21 @@ def run(tier, verdict, prop, cov, nproc=8):
     res = common.run_tlc("MC_Recover", cfg=cfg, workers=8, heap="6g", timeout=2400, line_cb=on_line)
     fh.close()
     common.tlc_ok(res, cfg)
+    if as_observed:
+        return _replay(tier, verdict, prop, cov, nproc, d, scen, n[0], res, {"as_observed": as_observed}, key="recover_model_as_observed")
     # the weakened variant (newest readable snapshot file, not checked against the WAL) must violate Acceptable: the
     # model tells the two apart
     weak = common.run_tlc("MC_Recover", cfg="MC_Recover_weak.cfg", workers=4, heap="2g", timeout=600, line_cb=lambda l: l.startswith('"RSCEN '))
     if weak.violated != "Acceptable":
         common.die_infra("MC_Recover_weak.cfg should violate Acceptable (got %s)" % weak.violated)
+    return _replay(tier, verdict, prop, cov, nproc, d, scen, n[0], res, {"weakened_variant_violates": weak.violated})
+
+
+def _replay(tier, verdict, prop, cov, nproc, d, scen, total, res, extra, key="recover_model"):
     tool = ks.build_tool("recoversim")
-    total = n[0]
     chunk = (total + nproc - 1) // nproc
-    out = {"tlc_states": res.distinct, "tlc_transitions": res.generated, "behaviours": total, "replayed": 0, "recoveries_compared": 0,
-           "not_realisable_by_process_kill": 0, "findings": 0, "weakened_variant_violates": weak.violated}
+    out = dict({"tlc_states": res.distinct, "tlc_transitions": res.generated, "behaviours": total, "replayed": 0, "recoveries_compared": 0,
+                "not_realisable_by_process_kill": 0, "findings": 0}, **extra)
 
     def one(i):
         lo, hi = i * chunk, min(total, (i + 1) * chunk)
@@ -82,9 +92,9 @@ def run(tier, verdict, prop, cov, nproc=8):
                 common.die_infra("recoversim failed (rc=%s): %s" % (p.returncode, p.stderr.decode("utf-8", "replace")[-1500:]))
             for k in ("replayed", "recoveries_compared", "not_realisable_by_process_kill"):
                 out[k] += summ[k]
-    if out.get("divergences") and not verdict.violations:
+    if out.get("divergences") and not verdict.violations and key == "recover_model":
         common.die_infra("recovery diverges from Recover.tla in %d behaviours without violating a clause of the property (see DIVERGENCE lines)" % out["divergences"])
-    cov["recover_model"] = out
+    cov[key] = out
     cov["states"] = cov.get("states", 0) + res.distinct
     cov["transitions"] = cov.get("transitions", 0) + res.generated
     cov["traces_validated_against_impl"] = cov.get("traces_validated_against_impl", 0) + out["replayed"]
